@@ -391,13 +391,10 @@ def main():
     from checks import histlib as HL
     r = C.rng()
     N = 3 if tier == 'quick' else 4
-    hjobs = [(p, c) for p, c in HL.HANDCRAFTED]
-    for parents in shapes_upto(N):
-        if parents:
-            hjobs += [(h.parents, h.content) for h in HL.valid_histories(parents, r, 3 if tier == 'quick' else 8)]
+    hjobs = HL.history_list(tier, r, 3 if tier == 'quick' else 4, 3 if tier == 'quick' else 8)
     for part in parallel(hjobs, worker_k2):
         merge_partial(rep, cands, part)
-    rep.cov['bounds']['histories'] = '%d (4 handcrafted incl. one transaction on two forks at different heights + seeded samples per tree shape up to %d blocks); every leaf x both addresses x every continuation offset' % (len(hjobs), N)
+    rep.cov['bounds']['histories'] = '%d (%d handcrafted incl. one transaction on two forks at different heights + seeded samples per tree shape up to %d blocks + %s of the 958 transaction-valid histories on trees of up to 3 blocks); every leaf x both addresses x every continuation offset' % (len(hjobs), len(HL.HANDCRAFTED), N, 'all' if tier != 'quick' else 'an evenly spread subset')
     for p, c in hjobs[:8]:
         res = native_views((p, c))
         probs = judge_native_views((p, c), res, want_heights=not shared_tx_on_forks((p, c)))
